@@ -77,7 +77,11 @@ Record gdir := { gk : dkey; gp : option totals }.
 Definition gpath (g : gdir) : dpath := {| dp_key := gk g; dp_suf := gp g |}.
 
 Inductive ophase := OTry | ORec | OTry2 (failed : option totals).
-Inductive rphase := RTry | RTry2 (failed : option totals).
+(* RTry hp: first attempt, through the column handle created earlier under the directory name hp (the handle is
+   created lazily with the GPDir's path of that moment and keeps it; it may never have opened its file because
+   every block read through it so far was empty: GPFile.ReadBlockAtIndex returns before open() when RawLen = 0);
+   RTry2: attempt through a fresh handle after the re-Open *)
+Inductive rphase := RTry (hp : option totals) | RTry2 (failed : option totals).
 
 Inductive prog :=
 | Ret (r : result)
@@ -106,7 +110,8 @@ Definition step_obs (c : cal) (p : prog) : option obs :=
   | Ask q _ => Some q
   | OpenM ORec g _ => Some (month_of c (gk g))
   | OpenM _ g _ => Some (QOpenMeta (gpath g))
-  | ReadC _ g _ col _ => Some (QOpenCol (gpath g) col)
+  | ReadC (RTry hp) g _ col _ => Some (QOpenCol {| dp_key := gk g; dp_suf := hp |} col)
+  | ReadC (RTry2 _) g _ col _ => Some (QOpenCol (gpath g) col)
   end.
 
 (* how a program continues with the answer to that observation *)
@@ -134,7 +139,7 @@ Definition rstep_ans (p : prog) (a : ans) : prog + result :=
     | AMeta (Some None) => inl (k None)
     | _ => if otot_eqb (gp g) failed then inl (k None) else inl (OpenM ORec g k)
     end
-  | ReadC RTry g m col k =>
+  | ReadC (RTry _) g m col k =>
     match a with
     | ACol (Some f) => inl (k (Some (g, m, f)))
     | _ => inl (reopen g col k)
@@ -183,8 +188,11 @@ Definition is_nil {A} (l : list A) : bool := match l with [] => true | _ => fals
 
 (* local state of a worker on one GPDir: directory, metadata, opened columns (whole-file snapshots),
    whether the GPDir is still open (a failed re-Open leaves it closed) *)
-Record wdir := { wd_g : gdir; wd_m : meta; wd_cols : list (nat * list abyte); wd_open : bool }.
-Fixpoint col_get (c : nat) (l : list (nat * list abyte)) : option (list abyte) :=
+(* wd_cols: the column handles (GPDir.gpFiles): directory name the handle was created under, and the file
+   contents once the file has been opened (None: handle created, file never opened) *)
+Definition chandle := (option totals * option (list abyte))%type.
+Record wdir := { wd_g : gdir; wd_m : meta; wd_cols : list (nat * chandle); wd_open : bool }.
+Fixpoint col_get (c : nat) (l : list (nat * chandle)) : option chandle :=
   match l with [] => None | (c', f) :: r => if Nat.eqb c c' then Some f else col_get c r end.
 
 Definition slice (f : list abyte) (off len : nat) : option (list abyte) :=
@@ -196,15 +204,22 @@ Definition read_block (w : wdir) (idx c : nat) (k : wdir -> option (list abyte) 
   else
     let len m := nth c (mb_lens (nth idx (m_blocks m) {| mb_ts := 0; mb_lens := [] |})) 0 in
     let off m := offs_upto c (firstn idx (m_blocks m)) in
-    if Nat.eqb (len (wd_m w)) 0 then k w (Some [])
+    (* GPDir.Column: the handle is created (no file access) if the column has none yet *)
+    let hp := match col_get c (wd_cols w) with Some (hp, _) => hp | None => gp (wd_g w) end in
+    let w1 := match col_get c (wd_cols w) with
+              | Some _ => w
+              | None => {| wd_g := wd_g w; wd_m := wd_m w; wd_cols := (c, (hp, None)) :: wd_cols w; wd_open := true |}
+              end in
+    if Nat.eqb (len (wd_m w)) 0 then k w1 (Some [])           (* RawLen = 0: returns before open() *)
     else match col_get c (wd_cols w) with
-         | Some f => k w (slice f (off (wd_m w)) (len (wd_m w)))
-         | None =>
-           ReadC RTry (wd_g w) (wd_m w) c (fun r => match r with
+         | Some (_, Some f) => k w (slice f (off (wd_m w)) (len (wd_m w)))
+         | _ =>
+           ReadC (RTry hp) (wd_g w) (wd_m w) c (fun r => match r with
              | None => k {| wd_g := wd_g w; wd_m := wd_m w; wd_cols := []; wd_open := false |} None
              | Some (g', m', f) =>
-               (* column files opened before stay open across a re-Open (second C30 fix) *)
-               k {| wd_g := g'; wd_m := m'; wd_cols := (c, f) :: wd_cols w; wd_open := true |} (slice f (off m') (len m'))
+               (* the other handles stay as they are across a re-Open (second C30 fix) *)
+               k {| wd_g := g'; wd_m := m'; wd_cols := (c, (gp g', Some f)) :: wd_cols w; wd_open := true |}
+                 (slice f (off m') (len m'))
              end)
          end.
 
